@@ -21,6 +21,7 @@ def tasks(tier):
             Task('props.C01:t_two_steps_1d', name='C01/wire.one_pop.two-steps', timeout=600),
             Task('props.C01:t_dispatch_1d', name='C01/wire.one_pop.const-dispatch', timeout=600),
             Task('props.C01:t_const_1d', name='C01/wire.one_pop.const', timeout=600),
+            Task('props.C01:t_const_1d_late', name='C01/wire.one_pop.const-late-start', timeout=600),
             Task('props.C01:t_const_1d_two_steps', name='C01/wire.one_pop.const-two-steps', timeout=600)] + bounded_tasks('C01', tier)
 
 
@@ -60,6 +61,12 @@ def t_const_1d():
     """the constant-parameter one-population driver assembles the same tridiagonal system as the kernel (n = 4 grid points, all values symbolic)"""
     from contracts import py_wiring as W
     return _rename(W.c02_const_1d(4))
+
+
+def t_const_1d_late():
+    """the same from a non-zero initial_t with a time step longer than T: the single step has length T - initial_t (b and r entries)"""
+    from contracts import py_wiring as W
+    return _rename(W.c02_const_1d(4, late_start=True))
 
 
 def t_const_1d_two_steps():
